@@ -15,7 +15,7 @@ Proof. exists w_tkhd_v2, (treeof w_tkhd_v2). vm_compute. repeat split. Qed.
 
 (* trun, flags 0x000001 (data offset present), sample_count 0, data_offset 0 *)
 Definition w_trun_off0 : list N := enc_hdr n_trun 20 ++ [0;0;0;1] ++ [0;0;0;0] ++ [0;0;0;0].
-Lemma trun_offset0_refuted : exists bs t, decode bs = Ok (t, []) /\ encode_w t = Panic.
+Lemma trun_offset0_refuted : exists bs t, decode bs = Ok (t, []) /\ encode_w t = Err.
 Proof. exists w_trun_off0, (treeof w_trun_off0). vm_compute. repeat split. Qed.
 
 (* mfhd whose header says 20 bytes: 4 trailing body bytes are left unread *)
